@@ -254,6 +254,20 @@ def applyBranch (pre : Nat) (reset : Bool) (seg : List Frame) (r : State × Ckpt
   | .nil => ({ st with segs := st.segs ++ [seg] }, ⟨r.2, reset, .none, some seg⟩)
   | .busy => (st, ⟨r.2, reset, .busy, none⟩)     -- the store's deferred Cancel removes the file
 
+/-! #### the SQLite law this model rests on: frames leave the WAL ONLY through `sqliteCheckpoint`
+i.e. SQLite never checkpoints on its own. `PRAGMA wal_autocheckpoint=0` is per CONNECTION and is
+issued once, on the read-write pool's first connection; the law therefore needs that connection
+never to be replaced: the pool holds one connection, with no lifetime and NO idle limit. -/
+
+/-- the settings of the read-write pool (sorted), and where autocheckpoint is switched off -/
+def rwPoolSettings : List String := ["SetConnMaxLifetime(0)", "SetMaxOpenConns(1)"]
+def autocheckpointOff : List String := ["rwDB.Exec", "PRAGMA wal_autocheckpoint=0"]
+
+/-- where the attempt's `WALReset` is set in the source: ONE place, the result literal built
+before the outcome branches — `captureFinish` hands the same `reset` to every branch, the busy
+one included (the watch's `Check` is one-shot: an attempt that drops the flag loses it for good) -/
+def resetSites : List String := ["literal:walReset:before-branches"]
+
 /-- the bookkeeping after the checkpoint pragma returned `r`: the first branch whose condition
 holds; none holding is the invariant error. `pre` is the salt read before the checkpoint, `seg`
 the compacted WAL already written to the writer -/
